@@ -321,6 +321,50 @@ theorem BgpIn_nocfg_takes_no_id (v : Variant) (w : World) (a : Addr) (asn : Nat)
   have hg := (get_none w.cfg a).2 h
   simp [step, ht, hg]
 
+/-- **A connection attempt emits nothing.** Whatever the verdict (refused, no configuration, wrong AS, turned
+    away as a second session of a live peer, or accepted): the gate output so far and the RIB are unchanged.
+    With `BgpIn_unaccepted_inert` this is the engine's `lifecycle:rejected-session-routes-in-rib` clause: what
+    a connection that was not accepted sends reaches nobody. -/
+theorem BgpIn_conn_emits_nothing (v : Variant) (w : World) (a : Addr) (asn : Nat) :
+    (step v w (.conn a asn)).1.hist = w.hist ∧ (step v w (.conn a asn)).1.rib = w.rib := by
+  unfold step
+  simp only
+  split
+  · exact ⟨rfl, rfl⟩
+  · split
+    · exact ⟨rfl, rfl⟩
+    · split
+      · exact ⟨rfl, rfl⟩
+      · split <;> exact ⟨rfl, rfl⟩
+
+/-- **The slot of a connection that was not accepted is inert.** Its connection is not open in the model
+    (`copen = false`: refused, nocfg, badas, rejected all create such a slot), so an UPDATE on it changes
+    nothing and is answered `nc`. -/
+theorem BgpIn_unaccepted_inert (v : Variant) (w : World) (k : Nat) (s : Sess) (u : Rib.Upd)
+    (hs : w.sess[k]? = some s) (hc : s.copen = false) : step v w (.upd k u) = (w, .nc) := by
+  simp [step, hs, hc]
+
+/-- … and the slot a turned-away connection gets is of that kind. -/
+theorem BgpIn_rejected_slot (v : Variant) (w : World) (a : Addr) (asn : Nat)
+    (h : (step v w (.conn a asn)).2 = .rejected) :
+    ∃ s, (step v w (.conn a asn)).1.sess = w.sess ++ [s] ∧ s.copen = false ∧ s.rejected = true := by
+  by_cases ht : w.term = true
+  · simp [step, ht] at h
+  · cases hg : get w.cfg a with
+    | none => simp [step, ht, hg] at h
+    | some e =>
+      by_cases ha : e.asns.accepts asn = true
+      · by_cases hl : (a, asn) ∈ w.live
+        · refine ⟨⟨w.next, a, some asn, true, .done, false⟩, ?_, rfl, rfl⟩
+          simp [step, ht, hg, ha, hl]
+        · simp [step, ht, hg, ha, hl] at h
+      · simp [step, ht, hg, ha] at h
+
+-- non-vacuity: a second connection of a live peer is turned away, and its slot is inert
+example : let w := exec asWritten (World.init cfg1) [.conn peer1 65001, .upd 0 (ann8 6)]
+    (step asWritten w (.conn peer1 65001)).2 = .rejected
+      ∧ step asWritten (step asWritten w (.conn peer1 65001)).1 (.upd 1 (ann8 7)) = ((step asWritten w (.conn peer1 65001)).1, .nc) := by decide
+
 /-- Exact beats prefix, longest prefix beats shorter (the test vector of `peer_config.rs` on loopback). -/
 example : let cfg : List Entry := [⟨.pfx 0 0, .many [], 0⟩, ⟨.pfx 24 8323328, .many [100, 200], 10⟩, ⟨.pfx 32 2130771969, .one 100, 10⟩, ⟨.exact 2130771969, .one 7, 0⟩]
     (get cfg 2130771969).map (·.key) = some (.exact 2130771969) ∧ (get cfg 2130771970).map (·.key) = some (.pfx 24 8323328)
